@@ -10,7 +10,7 @@ from bip_utils.bip.bip38.bip38_ec import Bip38EcKeysGenerator
 
 LEAN_MODULES = ["BipVerif.Props.C13Wif"]
 PASS = {}
-PASSPHRASES = ["TestingOneTwoThree", "Satoshi", "", "MOLON LABE", "ΜΟΛΩΝ ΛΑΒΕ", "é", "é", "Å", "Å", "ϔ́\x00𐐀💩", "a\x00b", "ﬁ", "pass phrase 🙂"]
+PASSPHRASES = ["TestingOneTwoThree", "Satoshi", "", "MOLON LABE", "ΜΟΛΩΝ ΛΑΒΕ", "é", "é", "Å", "Å", "\u03d2\u0301\x00\U00010400\U0001f4a9", "a\x00b", "ﬁ", "pass phrase 🙂"]
 
 
 def nfc_field(p):
@@ -66,7 +66,7 @@ IMPL = {
 
 VECTORS_NOEC = [("6PRVWUbkzzsbcVac2qwfssoUJAN1Xhrg6bNk8J7Nzm5H7kxEbn2Nh2ZoGg", "TestingOneTwoThree"), ("6PRNFFkZc2NZ6dJqFfhRoFNMR9Lnyj7dYGrzdgXXVMXcxoKTePPX1dWByq", "Satoshi"),
                 ("6PYNKZ1EAgYgmQfmNVamxyXVWHzK5s6DGhwP4J5o44cvXdoY7sRzhtpUeo", "TestingOneTwoThree"), ("6PYLtMnXvfG3oJde97zRyLYFZCYizPU5T3LwgdYJz1fRhh16bU7u6PPmY7", "Satoshi"),
-                ("6PRW5o9FLp4gJDDVqJQKJFTpMvdsSGJxMYHtHaQBF3ooa8mwD69bapcDQn", "ϔ́\x00𐐀💩")]
+                ("6PRW5o9FLp4gJDDVqJQKJFTpMvdsSGJxMYHtHaQBF3ooa8mwD69bapcDQn", "\u03d2\u0301\x00\U00010400\U0001f4a9")]
 VECTORS_EC = [("6PfQu77ygVyJLZjfvMLyhLMQbYnu5uguoJJ4kMCLqWwPEdfpwANVS76gTX", "TestingOneTwoThree"), ("6PfLGnQs6VZnrNpmVKfjotbnQuaJK4KZoPFrAjx1JMJUa1Ft8gnf5WxfKd", "Satoshi"),
               ("6PgNBNNzDkKdhkT6uJntUXwwzQV8Rr2tZcbkDcuC9DZRsS6AtHts4Ypo1j", "MOLON LABE"), ("6PgGWtx25kUg8QWvwuJAgorN6k9FbE25rv5dMRwu5SKMnfpfVe5mar2ngH", "ΜΟΛΩΝ ΛΑΒΕ")]
 
@@ -80,7 +80,7 @@ def gen(rng, tier):
     n = 3 if tier == "quick" else 120
     for i in range(n):
         k = rand_priv(rng, "secp256k1")
-        p = PASSPHRASES[i % len(PASSPHRASES)]
+        p = PASSPHRASES[(11, 9, 5, 0)[i] if i < 4 else i % len(PASSPHRASES)]   # compatibility ligature, the BIP-38 Unicode vector, an accent, ASCII first
         c = str(i % 2)
         pf = nfc_field(p if i % 3 else unicodedata.normalize("NFD", p))
         yield Case("b38noecenc", [hx(k), pf, c], "noec-enc")
